@@ -88,6 +88,7 @@ func zzH_C12_ftp() {
 
 	// 2. attempts
 	logged := false
+	pending := "" // the user name the server holds for the next PASS
 	a := zzLen(zzParam("AMIN", 1), zzParam("A", 2))
 	for i := 0; i < a; i++ {
 		name := zzString(zzLen(0, 1) * 4)
@@ -99,6 +100,7 @@ func zzH_C12_ftp() {
 			zzAssume(zzAnd(pw[j] > 0x20, pw[j] < 0x7f))
 		}
 		if len(name) > 0 {
+			pending = name
 			conn.receiveLine("USER " + name + "\r\n")
 		} else {
 			// USER requires a parameter: without one the pending user stays empty
@@ -111,7 +113,7 @@ func zzH_C12_ftp() {
 		conn.receiveLine("PASS " + pw + "\r\n")
 		want := false
 		if len(pw) > 0 { // PASS requires a parameter
-			stored, ok := users[name]
+			stored, ok := users[pending]
 			want = ok && stored == pw
 		}
 		code := zzLastCode(nc.out, mark)
@@ -125,6 +127,7 @@ func zzH_C12_ftp() {
 		}
 		if want {
 			logged = true
+			pending = ""
 		}
 		// 3. a file command after the attempt
 		before := drv.calls
